@@ -215,7 +215,7 @@ def run_case(cs):
         work = os.path.join(d, "copy-" + cmd)
         shutil.copytree(root, work, symlinks=True)
         if cmd == "create":
-            r = drive.run("create", [work] + world.fmt_args(world.gen_formats(rng)))
+            r = drive.run("create", [work] + world.fmt_args(world.gen_formats(rng)) + (["-n"] if rng.random() < 0.3 else []))
         else:
             r = drive.run(cmd, [work])
         shutil.rmtree(work, ignore_errors=True)
